@@ -2,6 +2,8 @@
 From Coq Require Import ZArith List Bool.
 From B2Z Require Import Base.Prims Model.Schema Proofs.SchemaProofs Proofs.DimsProofs.
 From B2Z Require Import Base.Eff Protocol.VczEffects Gen.GenVczProtocol.
+From B2Z Require Import Model.Partitions Proofs.PartitionsProofs Bridge.BridgePartitions.
+From B2Z Require Gen.GenPartitions.
 Import ListNotations.
 Open Scope Z_scope.
 
@@ -47,3 +49,16 @@ Theorem consolidated_after_wip_removed :
   exists body, In (ForArrays body) vcz_finalise /\ In (ARename ZArrTmpl ZFinalArr) body.
 Proof. split; [reflexivity|split; [reflexivity|]]. eexists. split; [vm_compute; auto 10|vm_compute; auto 10]. Qed.
 Print Assumptions consolidated_after_wip_removed.
+
+(* the variants axis holds every record: the store is created with partitions[-1].stop rows, and for EVERY record
+   count, chunk size and partition count the partitions computed by the TRANSLATED generate_partitions (C11) are a
+   chain from 0 to the record count -- to min(nr, cap * cs) under a cap on the number of variant chunks *)
+Theorem variants_axis_holds_every_record : forall nr cs np mc,
+  1 <= nr -> 1 <= cs -> 1 <= np -> mc_ok mc ->
+  exists ps, GenPartitions.generate_partitions nr cs np mc = Ok ps /\ rchain cs 0 ps (total_records nr cs mc) /\
+             (mc = None -> total_records nr cs mc = nr).
+Proof.
+  intros nr cs np mc H1 H2 H3 H4. destruct (C11_generate_partitions_cover nr cs np mc H1 H2 H3 H4) as [ps [E [R _]]].
+  exists ps. split; [exact E|]. split; [exact R|]. intros ->. reflexivity.
+Qed.
+Print Assumptions variants_axis_holds_every_record.
